@@ -316,7 +316,8 @@ def run(ctx):
         else:
             ctx.case(key=(c["fn"], c["var"], c["nd"], len(c["in"]["a"]), len(c["in"]["b"]), len(c["out"]["ia"])),
                      nontrivial=len(c["in"]["a"]) >= 1 and len(c["in"]["b"]) >= 1)
-    chunks = [cases[i:i + CHUNK] for i in range(0, len(cases), CHUNK)]
+    size = 3600 if q else CHUNK
+    chunks = [cases[i:i + size] for i in range(0, len(cases), size)]
     with ThreadPoolExecutor(3) as pool:
         futs = [pool.submit(judge_chunk, ctx, f"j{i}", ch) for i, ch in enumerate(chunks)]
         for ch, f in zip(chunks, futs):
